@@ -32,20 +32,62 @@ NEEDS = {
  "C18_a": "make_sincs keeps a process-wide single-entry memo keyed without the window function: wrong filter when the previously constructed resampler (any thread) had the same parameters but another window",
  "C18_b": "make_interpolator sets FTZ/DAZ in MXCSR inside a Once: per-thread register, so only the first constructing thread flushes denormals; shows when an instance runs on another thread with subnormal signals",
 }
+NEEDS2 = {
+ "C03_a": "FastFixedIn history_len 12+C instead of 17+C (C = ceil(max/ratio)): fails only when ceil(1/(ratio/max)) = C+1 (double rounding, 415 of 878 085 two-decimal pairs), Septic, a chunk at exactly the lowest ratio ending at the bottom of its step window (chunk = 17+11k), then a jump without ramp above ratio 1",
+ "C03_b": "SincFixedIn history_len sinc_len+2+C: same double-rounding pair class, Cubic, chunk = sinc_len+5+11k at exactly the lowest ratio, then a jump without ramp to a ratio above the oversampling factor",
+ "C04_a": "FftFixedOut::input_frames_max as integer ceil-div while constructor/reset/process use f32: differs only for chunk_size_out >= 2^24 that f32 cannot represent (1000->999, chunk 16801*999, sub 16801)",
+ "C04_b": "SincFixedOut::input_frames_max margin +2 -> +1: needs a user interpolator with odd len(), no chunk processed yet, ratio exactly original/max, and a one-ulp rounding coincidence (ratio 1.2, max 10, chunk 120, 7 taps)",
+ "C05_a": "thread-local cache of the last FFT anti-aliasing filter keyed by input block size and cutoff within 5e-3: needs, on one thread, a 480->440 resampler, then twin A 480->441 (stale filter), another size, then twin B",
+ "C05_b": "SincFixedOut rounds last_index to a whole frame when within 1e-8 of one: systematic only when chunk/ratio is within 1e-8 of an integer (ratio 997/(1301+5e-9)); divergence 4.5e-7 after 100 chunks",
+ "C06_a": "FastFixedOut::set_resample_ratio ignores a change smaller than f32::EPSILON relative to the current target",
+ "C06_b": "SincFixedOut::set_resample_ratio skips update_needed_len when the target is unchanged: set(X, ramp) immediately followed by set(X, no ramp) with bit-identical X",
+ "C07_a": "FastFixedIn drops a ramped update within 1e-6 relative of the current target: drift of 0.9 ppm leaves the bound after 4.9e7 frames",
+ "C07_b": "SincFixedOut Nearest snaps a step within 1e-6 of the oversampling grid onto the grid (ratio 2(1+9e-7), factor 2): drift leaves the bound after 6.1e7 output frames",
+ "C09_a": "FastFixedOut caps its internal buffer at 2^22 frames and grows on demand: one realloc the first time a call needs more than ~4.19 Mi input frames (chunk 4096, ratio 1/256, relative 1/8)",
+ "C09_b": "FFT types clear buffers longer than 2^20 samples in reset() by re-creating them: reset allocates only when chunk + FFT size exceeds 2^20 frames",
+ "C10_a": "FftFixedOut::reset integer ceil-div vs the constructor's f32 ceil: differs only for chunk sizes above 2^24 that f32 cannot represent (6000->48000, chunk 2^24+1)",
+ "C10_b": "SincFixedIn::reset restores last_index as -(len as f64 / 2.0): differs only for a custom interpolator with odd len() (15 taps)",
+ "C11_a": "process_partial_into_buffer hoists the per-channel frame count: an over-long partial slice inherits the previous (shorter or empty masked) channel's count",
+ "C11_b": "SincFixedOut Cubic reuses the sinc points when consecutive frames hit the same four grid points, shared across channels: >= 2 active channels and a current ratio above the oversampling factor",
+ "C12_a": "SincFixedOut recomputes needed_input_size after a *rejected* absolute ratio call: visible only on a fresh/reset instance when chunk/ratio is an exact integer (44100/48000, chunk 147: 192 -> 193)",
+ "C12_b": "SincFixedIn::set_chunk_size derives the limit from the buffer: zero-channel instance refuses every size",
+ "C13_a": "SincFixedOut validation-failure path calls update_needed_len(): differs from the constructor value at a rounding coincidence (44100/48000, chunk multiple of 147) on a fresh/reset instance",
+ "C13_b": "FastFixedIn::process_into_buffer computes its required output length as distance*ratio_max: one frame less than output_frames_next in ~1.4e-3 of small-rational first-call configurations (ratio 7/5, chunk 371): a buffer one frame short is accepted",
+ "C15_a": "AVX f32 four-accumulator branch for sinc_len >= 1024 forgets s_idx += 2 in its tail: wrong coefficients only when sinc_len >= 1024 and sinc_len % 32 == 24 (1048, 1080, ...)",
+ "C15_b": "AVX kernels skip an 8-sample group that compares equal to zero with an ordered predicate: a NaN in otherwise silent input is swallowed by AVX while scalar/SSE return NaN",
+ "C16_a": "FftFixedIn counts ready sub-chunks with integer division while output_frames_next uses f32: process() allocates one sub-chunk too few for chunk 16 777 845 = 16305*1029 (44100->48000)",
+ "C16_b": "process_partial_into_buffer fast path 'full chunk needs no padding' checks only channel 0: ragged Some(x) with channel 0 full and another active channel short returns InsufficientInputBufferSize",
+ "C17_a": "AVX f64 four-accumulator path for sinc_len >= 2048 advances the wave index by 8 instead of 16",
+ "C17_b": "AVX f32 block-wise summation (1024-tap blocks) restarts the wave index each block: wrong for sinc_len > 1024",
+ "C18_a": "thread-local one-entry cache of the last sinc table with the cutoff keyed as (f_cutoff*1e6) as u32: an instance built right after another on the same thread with a cutoff in the same 1e-6 bucket reuses the other table",
+ "C18_b": "process-wide Mutex around the FFT filter generation: a constructor call that panics inside it (absurd co-prime rates, capacity overflow) poisons it and every later FFT constructor on any thread panics",
+}
+ROUND = int(os.environ.get('SEEDED_ROUND', '1'))
+if ROUND == 2:
+    NEEDS = NEEDS2
+SRC_ROOT = '/tmp/seeded-out' if ROUND == 1 else '/tmp/seeded2-out'
+LOGS = ['/tmp/seeded-results.log'] if ROUND == 1 else ['/tmp/seeded2-baseline.log', '/tmp/seeded2-new.log', '/tmp/seeded2-thorough.log']
+PREFIX = '' if ROUND == 1 else 'R2_'
 res = {}
 cur = None
-for l in open('/tmp/seeded-results.log'):
+import itertools
+lines = []
+for lg in LOGS:
+    if os.path.exists(lg):
+        tag = os.path.basename(lg).replace('.log', '')
+        lines += [(tag, l) for l in open(lg)]
+for tag, l in lines:
     m = re.match(r'CONFIRM (C\d+) ([ab]) (.*)', l)
     if m:
         cur = f"{m.group(1)}_{m.group(2)}"; res.setdefault(cur, {})['confirm'] = m.group(3).strip(); continue
     m = re.match(r'(CAUGHT|MISSED|HARNESS-ERROR) patch.diff (C\d+) (.*)', l)
     if m and cur:
-        res[cur].setdefault('runs', []).append({'verdict': m.group(1), 'property': m.group(2), 'detail': m.group(3).strip()[:600]})
+        res[cur].setdefault('runs', []).append({'stage': tag, 'verdict': m.group(1), 'property': m.group(2), 'detail': m.group(3).strip()[:600]})
 rows = []
 for key in sorted(NEEDS):
     p, x = key.split('_')
-    src = f"/tmp/seeded-out/{p}/variant_{x}"
-    dst = f"/verif/seeded/{key}"
+    src = f"{SRC_ROOT}/{p}/variant_{x}"
+    dst = f"/verif/seeded/{PREFIX}{key}"
     if not os.path.exists(src + "/patch.diff"):
         continue
     os.makedirs(dst, exist_ok=True)
@@ -56,7 +98,7 @@ for key in sorted(NEEDS):
     runs = r.get('runs', [])
     final = runs[-1] if runs else {'verdict': 'NOT-RUN', 'detail': ''}
     meta = {
-        "id": key, "breaks_property": p, "author": "independent sub-agent (saw only the property text and a scratch worktree)",
+        "id": PREFIX + key, "round": ROUND, "breaks_property": p, "author": "independent sub-agent (saw only the property text and a scratch worktree" + ("; round 2 was asked for changes that ~1e5 random call histories are unlikely to hit)" if ROUND == 2 else ")"),
         "needs_to_manifest": NEEDS[key],
         "confirmation": r.get('confirm', ''),
         "what_was_run": [
@@ -64,15 +106,17 @@ for key in sorted(NEEDS):
             f"tools/run_mutant.sh seeded/{key}/patch.diff quick {p}  (scratch copy of /repo + scratch build of the simulator under /tmp, removed afterwards)",
         ],
         "check_runs": runs,
-        "caught_by_quick_check": final['verdict'] == 'CAUGHT',
+        "caught_by_quick_check": any(r['verdict'] == 'CAUGHT' and 'thorough' not in r.get('stage', '') for r in runs[-1:]) ,
+        "caught_by_any_run": any(r['verdict'] == 'CAUGHT' for r in runs),
+        "stages": [(r.get('stage'), r['verdict']) for r in runs],
     }
     json.dump(meta, open(f"{dst}/meta.json", "w"), indent=1)
     clause = re.search(r'clause=([\w<>=!\-]+)', final.get('detail', ''))
-    rows.append((key, p, final['verdict'], clause.group(1) if clause else '', len(runs), NEEDS[key]))
-with open('/verif/seeded/RESULTS.md', 'w') as f:
+    rows.append((PREFIX + key, p, ' / '.join(f"{r.get('stage','').replace('seeded2-','').replace('seeded-results','run')}:{r['verdict']}" for r in runs) or 'NOT-RUN', clause.group(1) if clause else '', len(runs), NEEDS[key]))
+with open('/verif/seeded/RESULTS.md' if ROUND == 1 else '/verif/seeded/RESULTS_round2.md', 'w') as f:
     f.write("# Independent seeded changes (one sub-agent per property, two variants each)\n\n")
     f.write("Each change compiles, passes the 96 existing tests, and has a demonstration that fails with it and passes without it (confirmed in a scratch worktree). `check runs` counts how often the target check was run against it (a second run follows a strengthening of the check, see DESIGN.md section 13).\n\n")
     f.write("| id | property | quick check verdict | first clause | check runs | needs |\n|---|---|---|---|---|---|\n")
     for r in rows:
         f.write(f"| {r[0]} | {r[1]} | {r[2]} | {r[3]} | {r[4]} | {r[5]} |\n")
-print(len(rows), "seeded changes collected;", sum(1 for r in rows if r[2] == 'CAUGHT'), "caught")
+print(len(rows), "seeded changes collected;", sum(1 for r in rows if 'CAUGHT' in r[2]), "caught in some run")
